@@ -125,6 +125,7 @@ def compute_case(case):
 
 # ---- [checksums] sections -----------------------------------------------------------------------------------------
 HEX = "0123456789abcdef"
+STATED_OLDER = ["0.1", "0.2", "0.3", "1.0", "1.1"]
 _bare_len = st.one_of(st.sampled_from([32, 40, 64]), st.sampled_from([0, 1, 10, 31, 33, 39, 41, 63, 65, 128, 56, 96]), st.integers(0, 70))
 _entry = st.one_of(
     st.fixed_dictionaries({"style": st.just("typed"), "type": tim.checksum_type, "value": tim.checksum_value}),
@@ -141,13 +142,27 @@ _key = st.one_of(tim.option_name, tim.ini_path.filter(lambda p: "=" not in p and
 _raw_key = st.sampled_from(["./images/boot.iso", "images//boot.iso", "a/../b", "images/./boot.iso", "x/../images/boot.iso", "repodata/", "a/b/.."])
 section_strategy = st.fixed_dictionaries({
     "entries": st.lists(st.tuples(st.one_of(_key, _key, _key, _raw_key), _entry), min_size=1, max_size=6, unique_by=lambda t: t[0]),
-    "format": st.sampled_from(["current", "current", "pre-productmd"]),
+    "format": st.sampled_from(["current", "current", "pre-productmd", "pre-productmd"] + STATED_OLDER),
 })
 
 CURRENT_HEAD = ("[header]\ntype = productmd.treeinfo\nversion = 1.2\n\n[release]\nname = Foo\nshort = F\nversion = 1\n\n"
                 "[tree]\narch = x86_64\nbuild_timestamp = 1\nplatforms = x86_64\nvariants = Foo\n\n"
                 "[variant-Foo]\nid = Foo\nuid = Foo\nname = Foo\ntype = variant\n\n")
 OLD_HEAD = "[general]\nfamily = Foo\nversion = 1\narch = x86_64\ntimestamp = 1\nvariant = Foo\n\n"
+
+
+def head_for(fmt):
+    """the file head of a format: current (1.2), pre-productmd (no header), or a STATED older version"""
+    if fmt == "current":
+        return CURRENT_HEAD
+    if fmt == "pre-productmd":
+        return OLD_HEAD
+    head = CURRENT_HEAD.replace("version = 1.2", "version = " + fmt)
+    if fmt.startswith("0."):
+        head = head.replace("type = productmd.treeinfo\n", "").replace("[release]", "[product]")
+    elif fmt == "1.0":
+        head = head.replace("type = productmd.treeinfo\n", "")
+    return head
 
 
 def entry_text(e, i):
@@ -175,7 +190,7 @@ def section_case(case):
             want[key] = [{32: "md5", 40: "sha1", 64: "sha256"}[len(text)], text]
         else:
             bad = True
-    doc = (CURRENT_HEAD if case["format"] == "current" else OLD_HEAD) + "[checksums]\n" + "\n".join(lines) + "\n"
+    doc = head_for(case["format"]) + "[checksums]\n" + "\n".join(lines) + "\n"
     ti = TreeInfo()
     styles = set(e["style"] + (":ok" if e["style"] == "typed" or (len(entry_text(e, i)) in (32, 40, 64) and not e.get("spoil")) else ":not-a-digest" if e.get("spoil") else ":unknown-length") for i, (k, e) in enumerate(case["entries"]))
     if bad:
@@ -205,7 +220,7 @@ _abs_key = st.one_of(
     st.sampled_from(["/abs/repomd.xml", "/mnt/x86_64/os//images/boot.iso", "//f", "/m/a/os/f", "/os//f", "/a/os/b/os//c", "/mnt/tree/os///x", "/images/boot.iso"]),
     st.builds(lambda pre, mid, rest: "/" + pre + mid + rest, st.sampled_from(["mnt/x86_64", "m", "srv/tree/7", ""]), st.sampled_from(["/os/", "/os//", "/", "/os///", "/OS/"]),
               st.sampled_from(["images/boot.iso", "f", "repodata/repomd.xml", "/f"])))
-absolute_strategy = st.fixed_dictionaries({"key": _abs_key, "format": st.sampled_from(["current", "pre-productmd"]), "others": st.lists(_key, max_size=2, unique=True)})
+absolute_strategy = st.fixed_dictionaries({"key": _abs_key, "format": st.sampled_from(["current", "current", "pre-productmd", "pre-productmd"] + STATED_OLDER), "others": st.lists(_key, max_size=2, unique=True)})
 
 
 def absolute_case(case):
@@ -213,7 +228,7 @@ def absolute_case(case):
     the table afterwards, and what was accepted can be written and read again"""
     from productmd.treeinfo import TreeInfo
     lines = ["%s = sha256:%s" % (k, "ab" * 32) for k in [case["key"]] + [o for o in case["others"] if o != case["key"]]]
-    doc = (CURRENT_HEAD if case["format"] == "current" else OLD_HEAD) + "[checksums]\n" + "\n".join(lines) + "\n"
+    doc = head_for(case["format"]) + "[checksums]\n" + "\n".join(lines) + "\n"
     ti = TreeInfo()
     try:
         ti.loads(doc)
@@ -221,7 +236,8 @@ def absolute_case(case):
         return {"nontrivial": True, "labels": ["rejected", case["format"]]}
     held = sorted(ti.checksums.checksums)
     check(not [k for k in held if k.startswith("/")], "absolute-path-in-table", lambda: "%s file with the checksum path %r: the table holds %r" % (case["format"], case["key"], held))
-    check(case["format"] != "current", "absolute-path-accepted", lambda: "current-format file with the checksum path %r was loaded (table %r)" % (case["key"], held))
+    # only a file that states no version at all is a pre-productmd file, whose absolute paths are made relative
+    check(case["format"] == "pre-productmd", "absolute-path-accepted", lambda: "a file stating format %s with the checksum path %r was loaded (table %r)" % (case["format"], case["key"], held))
     again = TreeInfo()
     must("reload-accepted", again.loads, must("dumps-accepted", ti.dumps))
     return {"nontrivial": True, "labels": ["made-relative", case["format"]]}
